@@ -985,7 +985,7 @@ void Analyser::AnalyserImpl::analyseNode(const XmlNodePtr &node,
         // Token elements.
 
     } else if (node->isMathmlElement("ci")) {
-        auto variableName = node->firstChild()->convertToStrippedString();
+        auto variableName = nonCommentChildNode(node, 0)->convertToStrippedString();
         auto variable = component->variable(variableName);
         // Note: we always have a variable. Indeed, if we were not to have one,
         //       it would mean that `variableName` is the name of a variable
